@@ -12,7 +12,10 @@
    The record rcfg carries, after the real settings, one boolean per repair (false = the code before it, true = the
    repaired code): order_fixed (fixes/C09-deterministic-order.diff), stem_fixed (fixes/C18-dotted-path.diff (1473636)),
    lit_fixed (fixes/C18-dofile-no-suffix.diff (526bcd1)), dotslash_fixed (fixes/C18-dot-slash-definition.diff (49c8cf0)),
-   reanalyse_fixed (fixes/C18-create-not-reanalysed.diff (f48e6f9)). *)
+   reanalyse_fixed (fixes/C18-create-not-reanalysed.diff (f48e6f9)), cursor_fixed (fixes/C18-string-cursor.diff
+   (9e1e7b2): the head of GetOpenFileStr - which quoted string the cursor is in - is modelled by cursor_pick; the
+   regular expressions stay an oracle: their match POSITIONS on the line are an argument).
+   calcMatchStrScore's repair (fixes/C18-score-position.diff (1f59be9)) is the constant score_deployed. *)
 From Coq Require Import List NArith ZArith Bool.
 From LH Require Import Base.Bytes Model.FileIndex.
 Import ListNotations.
@@ -28,14 +31,22 @@ Fixpoint common_len (a b : list (list N)) : nat :=
   | _, _ => O
   end.
 
-Definition calc_score (cur refer cand : list N) : Z :=
-  match last_index refer cand with
+(* pos = false: the code before fixes/C18-score-position.diff: strings.LastIndex(cand, refer) - any text equal to the
+                 name, e.g. the module names a, l, u, lu, ua, lua inside the suffix ".lua";
+   pos = true : the repaired code: strings.LastIndex(cand, "/" + refer) - the occurrence that made cand a candidate;
+                preStr = cand[0 : lastIndex+1] *)
+Definition calc_score_g (pos : bool) (cur refer cand : list N) : Z :=
+  match (if pos then option_map S (last_index (slash :: refer) cand) else last_index refer cand) with
   | None => (-1000000)%Z
   | Some i =>
     let split_vec := split_on slash (firstn i cand) in
     let split_old := split_on slash cur in
     ((-1000) * Z.of_nat (length split_vec) + 10 * Z.of_nat (common_len split_vec split_old))%Z
   end.
+
+(* THE constant: which calcMatchStrScore the deployed code has (shared with the C09 driver through calc_score) *)
+Definition score_deployed : bool := true.
+Definition calc_score : list N -> list N -> list N -> Z := calc_score_g score_deployed.
 
 (* ---- GetBestMatchReferFile ---- *)
 (* candidateVec in the iteration order of the inner map (the explicit order parameter = order of the list) *)
@@ -131,7 +142,9 @@ Record rcfg := mk_rcfg {
   stem_fixed : bool;                  (* the file index cuts names at the Lua suffix (FileIndex.suffix_index) *)
   lit_fixed : bool;                   (* dofile / loadfile / suffix-style imports are looked up literally *)
   dotslash_fixed : bool;              (* definition / hover drop a leading "./" like the analysis *)
-  reanalyse_fixed : bool              (* every create / delete event re-resolves the references of every file *)
+  reanalyse_fixed : bool;             (* every create / delete event re-resolves the references of every file *)
+  cursor_fixed : bool                 (* definition / hover locate the string under the cursor by the position of the
+                                         quoted literal (not by searching for its text), any quote kind, every pattern *)
 }.
 
 Record routcome := mk_rout {
@@ -222,6 +235,86 @@ Section Resolve.
       ++ (if forallb loaded bs && negb (is_nil bs) then [] else open_outcomes cur rest)
     end.
 End Resolve.
+
+(* ---- which module string is under the cursor (head of stringutil.GetOpenFileStr) ----
+   The four families of regular expressions of GetOpenFileStr, in the order the code tries them. The regular-expression
+   engine is an oracle: for one line the argument `groups` lists, per pattern in that order, the matches the engine
+   finds on the line (FindAllString: leftmost, non-overlapping), each with the place of the FIRST quoted literal the
+   expression regFen finds inside the matched text. *)
+Inductive ipat := PDofile | PRequire | PImportLua | PImport.
+(* PDofile: dofile("x.lua"); PRequire: require "x"; PImportLua / PImport: a configured import function (referFiles) with
+   a text ending in ?lua / any text *)
+Record occ := mk_occ {
+  oc_start : nat; oc_stop : nat;     (* the matched expression is line[oc_start, oc_stop) *)
+  oc_qs : nat; oc_qe : nat           (* the quoted literal, quotes included, is text[oc_qs, oc_qe) of the matched text *)
+}.
+
+Definition sub_bytes (s : list N) (a b : nat) : list N := firstn (Nat.sub b a) (skipn a s).
+
+(* strings.Index(s, sub) *)
+Fixpoint first_index (sub s : list N) {struct s} : option nat :=
+  if is_prefix sub s then Some O else
+  match s with
+  | [] => None
+  | _ :: t => option_map S (first_index sub t)
+  end.
+
+Definition pat_need_suffix (p : ipat) : bool := match p with PDofile | PImportLua => true | _ => false end.
+(* name/init.lua is offered for require - and since the repair for a suffix-less import, which the analysis resolves
+   like a require (CheckReferFile) *)
+Definition pat_init (fx : bool) (p : ipat) : bool := match p with PRequire => true | PImport => fx | _ => false end.
+
+Definition occ_text (line : list N) (o : occ) : list N := sub_bytes line (oc_start o) (oc_stop o).
+(* the text between the quotes, and its columns [lit_begin, lit_end] (the closing quote counts: cursor after the text) *)
+Definition lit_begin (o : occ) : nat := oc_start o + oc_qs o + 1.
+Definition lit_end (o : occ) : nat := oc_start o + oc_qe o - 1.
+Definition occ_lit (line : list N) (o : occ) : list N := sub_bytes line (lit_begin o) (lit_end o).
+
+(* the repaired code: the cursor (byte column) is inside the literal of THIS match *)
+Definition hit_pos (col : nat) (o : occ) : bool :=
+  Nat.leb 2 (oc_qe o - oc_qs o) && Nat.leb (lit_begin o) col && Nat.leb col (lit_end o).
+
+(* the code before the repair: strings.Index(line, matched text) + strings.Index(matched text, literal text), compared
+   with pos.Character (UTF-16 units) *)
+Definition hit_search (line : list N) (ch : nat) (o : occ) : option (list N) :=
+  let t := occ_text line o in
+  let quoted := sub_bytes t (oc_qs o) (oc_qe o) in
+  if Nat.ltb (length quoted) 2 then None else
+  let lit := sub_bytes quoted 1 (length quoted - 1) in
+  match first_index t line, first_index lit t with
+  | Some i, Some j => if Nat.leb (i + j) ch && Nat.leb ch (i + j + length lit) then Some lit else None
+  | _, _ => None
+  end.
+
+Fixpoint pick_pos (line : list N) (col : nat) (p : ipat) (os : list occ) {struct os} : option (ipat * list N) :=
+  match os with
+  | [] => None
+  | o :: r => if hit_pos col o then Some (p, occ_lit line o) else pick_pos line col p r
+  end.
+
+Fixpoint pick_search (line : list N) (ch : nat) (p : ipat) (os : list occ) {struct os} : option (ipat * list N) :=
+  match os with
+  | [] => None
+  | o :: r => match hit_search line ch o with Some l => Some (p, l) | None => pick_search line ch p r end
+  end.
+
+(* fx = true : every pattern in order, every match, the first one whose literal holds the cursor;
+   fx = false: only the matches of the FIRST pattern that matches anywhere on the line *)
+Fixpoint cursor_pick (fx : bool) (line : list N) (col ch : nat) (groups : list (ipat * list occ)) {struct groups}
+  : option (ipat * list N) :=
+  match groups with
+  | [] => None
+  | (p, os) :: rest =>
+    if fx then match pick_pos line col p os with Some r => Some r | None => cursor_pick fx line col ch rest end
+    else match os with [] => cursor_pick fx line col ch rest | _ => pick_search line ch p os end
+  end.
+
+(* the whole GetOpenFileStr: the candidate list for the string under the cursor *)
+Definition cursor_list (cfg : rcfg) (line : list N) (col ch : nat) (groups : list (ipat * list occ)) : list (list N) :=
+  match cursor_pick (cursor_fixed cfg) line col ch groups with
+  | None => []
+  | Some (p, s) => open_list cfg (pat_init (cursor_fixed cfg) p) (pat_need_suffix p) s
+  end.
 
 (* ---- one referencing file across create/delete events (check_lsp_filechange.go: HandleFileEventChanges with one
         event; check_all.go: RemoveFile; file_result.go: ReanalyseReferInfo / isReferFileContainFiles) ----
